@@ -480,3 +480,12 @@ MUTANTS.append({"id": "c15-revert-local-escape", "prop": "C15", "expect": "fire"
     {"file": "cola/libcola/cola.cpp", "count": 2,
      "old": "        vector<straightener::Edge*>* sedges = straightenEdges;\n        if(!sedges && nonOverlappingClusters) {\n            sedges = &cedges;\n        }\n",
      "new": "        if(!straightenEdges && nonOverlappingClusters) {\n            straightenEdges = &cedges;\n        }\n        vector<straightener::Edge*>* sedges = straightenEdges;\n"}]})
+
+# ---------------------------------------------------------------- C07 makeFeasible protocol
+M("c07-rollback-keeps-constraint", "C07", "cola/libcola/colafd.cpp",
+  "                    delete valid[dim].back();\n                    valid[dim].pop_back();", "                    valid[dim].back()->unsatisfiable = false;",
+  mention=["MAKEFEASIBLE-PROTOCOL", "rollback"])
+M("c07-positions-not-restored", "C07", "cola/libcola/colafd.cpp",
+  "                    for (unsigned int i = 0; i < priorPos.size(); ++i)\n                    {\n                        vs[dim][i]->finalPosition = priorPos[i];",
+  "                    for (unsigned int i = 1; i < priorPos.size(); ++i)\n                    {\n                        vs[dim][i]->finalPosition = priorPos[i];",
+  expect="silent")
